@@ -1,8 +1,8 @@
 #!/verif/.venv/bin/python
 # Replay of a solver counterexample against the unmodified code (no shims).
-# property=C07 kernel=seq label=k2:ref_additive_step
+# property=C07 kernel=eom_drift label=k4:modify_compensates_drift
 import sys
 sys.path[:0] = ['/repo' + "/pulser-core", '/repo' + "/pulser-simulation", "/verif"]
 from symx.replay import replay
-sys.exit(replay(check='checks.c07', kernel='seq', shape={'device': 'mock', 'channels': [('r', 'rydberg_global', None)], 'pre_dmm': 'dmap', 'program': [['shift', ['q0'], 'ground-rydberg'], ['shift', ['q1', 'q2'], 'ground-rydberg'], ['add', 'r', 'min-delay', 16, True], ['shift', ['q2'], 'ground-rydberg']]},
-                assignment={'phi0': 0, 'phi1': 1, 'ph2': 0, 'post2': 1, 'phi3': 0}, label='k2:ref_additive_step'))
+sys.exit(replay(check='checks.c07', kernel='eom_drift', shape={'cfg': {'lim': 'R', 'ctrl': ['B']}, 'program': [['enable', 2.0, 0.0, -1.0], ['modify', 1.0, 0.0, 3.0], ['eom_pulse', 0.0], ['disable']], 'custom_buffer': 40, 'kmax': 12},
+                assignment={'d2/k': 2}, label='k4:modify_compensates_drift'))
